@@ -31,13 +31,144 @@ def guard_clause(ctx, F, families, rule='R-GUARD'):
     return n_inst, len(res)
 
 
+# ---------------------------------------------------------------- clause (3): shortcut / forwarding table of the primitive forms
+import re
+from rules import table as TB, prov, provrules as R
+
+PRIM = re.compile(r'^&?(u8|u16|u32|u64|u128|i8|i16|i32|i64|i128|f32|f64|num_bigint::BigInt)$')
+KERNEL_SELF = re.compile(r'^&?BigDecimal$|^BigDecimalRef')
+
+
+def lit_value(t):
+    t = TB.deref(t)
+    if t[0] == 'const':
+        return float(t[1])
+    if t[0] == 'lit' and t[1]:
+        m = re.match(r'^const (-?[0-9.]+)(_?f32|_?f64)?$', t[1])
+        if m:
+            return float(m.group(1))
+    return None
+
+
+def closure_const(F, t):
+    """closure |n| n == k  ->  k"""
+    for s in TB.subterms(t):
+        if s[0] == 'closure' and s[1] in F.fns:
+            cf = F.fns[s[1]]
+            ks = []
+            for bid, st in cf.stmts():
+                rv = st['rv']
+                if rv['r'] == 'bin' and rv['bop'] == 'Eq':
+                    for x in (rv['a'], rv['b']):
+                        if x['k'] == 'const' and 'int' in x:
+                            ks.append(int(x['int']))
+            if len(ks) == 1:
+                return ks[0]
+    return None
+
+
+def claimed_divisor(F, atoms, dterm):
+    """value of the divisor established by the path's positive tests, or None"""
+    for term, (rel, val) in atoms:
+        truth = (rel == 'notin' and val == (0,)) or (rel == 'eq' and val == 1)
+        if not truth:
+            continue
+        tt = TB.strip_refs(term)
+        if tt[0] == 'call' and re.search(r'One::is_one$', TB._plain(tt[1])) and tt[2] and tt[2][0] == dterm:
+            return 1.0
+        if tt[0] == 'bin' and tt[1] == 'Eq' and tt[2] == dterm and lit_value(tt[3]) is not None:
+            return lit_value(tt[3])
+        if tt[0] == 'call' and re.search(r'Option::is_some_and$', TB._plain(tt[1])) and tt[2]:
+            inner = tt[2][0]
+            if inner[0] == 'call' and re.search(r'checked_neg$', inner[1]) and inner[2] and inner[2][0] == dterm:
+                k = closure_const(F, term)
+                if k is not None:
+                    return -float(k)
+    return None
+
+
+def shortcut_table(rep, F, rule='R-TABLE'):
+    """primitive / BigInt divisor and numerator forms: the +-1, +-2 shortcuts return self, -self,
+    half(), -half(); every other path converts the primitive exactly (From / TryFrom, never `as`)
+    and forwards to a decimal division with the operands in order"""
+    n = 0
+    arms = {}
+    for fn in F.real_fns():
+        if fn.is_closure or fn.trait != 'std::ops::Div' or fn.argc != 2:
+            continue
+        t1, t2 = fn.ty(1), fn.ty(2)
+        if KERNEL_SELF.match(t1) and KERNEL_SELF.match(t2):
+            continue           # decimal / decimal kernels and their ref forwarders: R-GUARD + PROV
+        try:
+            paths = TB.PathEnum(F, fn, max_paths=64).run()
+        except TB.Undecided as e:
+            rep.undecided(rule, fn.arm + ':shortcuts', str(e), fn.where())
+            continue
+        n += 1
+        prim_div = PRIM.match(t2) is not None
+        d = TB.T('param', 2) if prim_div else TB.T('param', 1)
+        a = TB.T('param', 1) if prim_div else TB.T('param', 2)
+        A = 'arg1' if prim_div else 'arg2'
+        D = 'arg2' if prim_div else 'arg1'
+        probs = []
+        for atoms, out in paths:
+            nf = TB.show(TB.strip_refs(out))
+            if nf.startswith("('panic'"):
+                continue
+            normal_false = any(TB.is_call(t, r'is_normal$') and v == ('eq', 0) for t, v in atoms)
+            if normal_false:
+                continue      # non-normal float operand: outside the property
+            c = claimed_divisor(F, atoms, d)
+            if prim_div:
+                exp = {1.0: {A}, -1.0: {'neg(%s)' % A}, 2.0: {'half(%s)' % A}, -2.0: {'neg(half(%s))' % A}}
+                if c is not None:
+                    if c not in exp:
+                        probs.append('unexpected shortcut for divisor %s returning %s' % (c, nf))
+                    elif nf not in exp[c]:
+                        probs.append('divisor == %g must return %s; returns %s' % (c, ' or '.join(exp[c]), nf))
+                else:
+                    ok = re.match(r'^div\(%s,(from\(%s\)|into\(%s\)|unwrap\(try_from\(%s\)\)|%s)\)$' % (A, D, D, D, D), nf) is not None
+                    if not ok:
+                        probs.append('general path must be div(%s, exact conversion of %s); it is %s' % (A, D, nf))
+            else:
+                # primitive numerator: numerator == 1 may route through inverse() (exempt by the property); else exact conversion
+                if c == 1.0:
+                    if nf not in ('inverse(%s)' % A, 'div(from(%s),%s)' % (D, A)):
+                        probs.append('numerator == 1 must return inverse(%s); returns %s' % (A, nf))
+                elif c is not None:
+                    probs.append('unexpected shortcut for numerator %s' % c)
+                else:
+                    ok = re.match(r'^div\((from\(%s\)|into\(%s\)|unwrap\(try_from\(%s\)\)|%s),%s\)$' % (D, D, D, D, A), nf) is not None
+                    if not ok:
+                        probs.append('general path must be div(exact conversion of %s, %s); it is %s' % (D, A, nf))
+        arms.setdefault(fn.arm, []).append((fn, probs, len(paths)))
+    for arm, lst in sorted(arms.items()):
+        bad = [(f, p) for f, p, _ in lst if p]
+        if bad:
+            f, p = bad[0]
+            rep.violation(rule, arm + ':shortcuts', '%d function(s) of this macro arm deviate, e.g. %s: %s' % (len(bad), f.key, p[0]), f.where())
+        else:
+            rep.ok(rule, arm + ':shortcuts', '%d function(s), %d paths each: shortcuts return self / -self / half() / -half(); other paths convert exactly and divide in order' % (len(lst), lst[0][2]), lst[0][0].where())
+    return n
+
+
 def run(ctx):
     rep = ctx.rep
-    rep.explanation = ('Static MIR analysis (no bigdecimal code is executed). R-GUARD: for every Div/DivAssign impl whose divisor is an '
-                       'integer, BigInt or decimal, a {MaybeZero,NonZero} dataflow over the CFG shows that no path reaches Return while the '
-                       'divisor may be zero (greatest fixed point over the call graph; num-bigint division contracts trusted).')
+    rep.explanation = ('Static MIR analysis (no bigdecimal code is executed). R-GUARD: for every Div/DivAssign impl whose divisor is an integer, BigInt or '
+                       'decimal, a {MaybeZero,NonZero} dataflow over the CFG shows that no path reaches Return while the divisor may be zero (greatest '
+                       'fixed point over the call graph; num-bigint division contracts trusted). PROV-DEFAULTOPS: every division kernel hands the generated '
+                       'DEFAULT_PRECISION to impl_division, whose loop consumes it. R-TABLE: the primitive/BigInt operand forms are path-enumerated: the '
+                       '+-1 and +-2 shortcuts return self, -self, half(), -half(); all other paths convert the primitive exactly (From/TryFrom) and '
+                       'divide with the operands in order. NOT decided: correct rounding of impl_division.')
     F = ctx.facts('default', 'rel')
     n, tot = guard_clause(ctx, F, ('std::ops::Div', 'std::ops::DivAssign'))
     rep.floor('Div/DivAssign impl functions with a non-float divisor', n, 102)
+    if not hasattr(F, '_prov'):
+        F._prov = prov.ProvEngine(F)
+    before = len(rep.obs)
+    R.default_ops(rep, F, F._prov)
+    rep.obs = rep.obs[:before] + [o for o in rep.obs[before:] if 'impl_division' in o['key']]
+    ns = shortcut_table(rep, F)
+    rep.floor('primitive-operand Div forms', ns, 80)
     rep.trust('num-bigint: BigInt/BigUint Div, Rem, div_rem panic on a zero divisor')
     rep.trust('rustc MIR construction and trait resolution (nightly) for the same source the stable build compiles')
